@@ -3,6 +3,7 @@ package checks
 import (
 	"encoding/json"
 	"fmt"
+	"os"
 	"strings"
 
 	"github.com/go-openapi/spec"
@@ -148,6 +149,9 @@ func c08worker(c *hx.Ctx) int {
 		if di%c.Workers != c.Worker {
 			continue
 		}
+		if only := os.Getenv("VERIF_C08_ONLY"); only != "" && !strings.Contains(d.Def, only) {
+			continue // debugging aid: one validator
+		}
 		if c.Expired() {
 			rep.Exhaustive = false
 			break
@@ -177,6 +181,32 @@ func c08worker(c *hx.Ctx) int {
 				continue // panics are C06's subject
 			}
 			fresh[v] = o
+			// a fresh validator must already give ONE outcome whatever the iteration order of the maps
+			// it walks (otherwise which values are "interesting" below would depend on the policy too)
+			orderDependent := false
+			for pol := 1; pol < 8 && !orderDependent; pol++ {
+				resetPools()
+				verifrt.SetMapPolicy(pol)
+				if fv2, err := d.build(); err == nil {
+					if o2 := c08call(fv2, d.value(v)); o2.Panic == "" {
+						if diff := outcomeDiff(o2, o); diff != "" {
+							orderDependent = true
+							rep.AddViolation(hx.Violation{
+								Signature: fmt.Sprintf("%s %s value %s: outcome of a fresh validator depends on map iteration order", d.Kind, d.Def, v),
+								What:      fmt.Sprintf("a fresh %s validator %s on %s under map-iteration policy %d gives %s", d.Kind, d.Def, v, pol, strings.Replace(diff, "alone", "under policy 0", -1)),
+								Replay:    map[string]any{"validator": d, "values": []string{v}, "map_policy": pol},
+							})
+						}
+					} else {
+						resetPools()
+					}
+				}
+				verifrt.SetMapPolicy(0)
+			}
+			if orderDependent {
+				alpha = append(alpha, v)
+				continue
+			}
 			if seenOut[o.Key()] < 2 && len(alpha) < maxAlpha {
 				seenOut[o.Key()]++
 				alpha = append(alpha, v)
@@ -193,6 +223,9 @@ func c08worker(c *hx.Ctx) int {
 		}
 		if len(alpha) == 0 {
 			continue
+		}
+		if os.Getenv("VERIF_C08_ONLY") != "" {
+			fmt.Fprintln(os.Stderr, "C08 debug: validator", d.Def, "values", alpha)
 		}
 		rep.Inc("validators", 1)
 		if len(rep.Samples) < 2 {
